@@ -195,11 +195,13 @@ func (v *Vue) loadCachedWithFrontMatter(filename string) (map[string]any, []*htm
 	verifPoint(vpCacheMiss, 0, 0)
 	frontMatter, templateBytes, err := v.loader.loadFragment(filename)
 	if err != nil {
+		v.dropCached(filename)
 		return nil, nil, err
 	}
 
 	dom, err := parser.ParseTemplateBytes(templateBytes)
 	if err != nil {
+		v.dropCached(filename)
 		return nil, nil, err
 	}
 
@@ -223,6 +225,16 @@ func (v *Vue) loadCachedWithFrontMatter(filename string) (map[string]any, []*htm
 	return frontMatter, dom, nil
 }
 
+// dropCached removes the cache entry of a template file. A file that has just
+// failed to load (missing, unreadable, invalid) must not be answered from an
+// older entry afterwards - not even when it comes back with the modification
+// time that entry was stored under.
+func (v *Vue) dropCached(filename string) {
+	v.templateMu.Lock()
+	delete(v.templateCache, filename)
+	v.templateMu.Unlock()
+}
+
 // assignSeenAttrs recursively assigns unique IDs to all v-once elements in the tree
 func assignSeenAttrs(ctx *VueContext, node *html.Node) {
 	if node.Type == html.ElementNode {
@@ -242,11 +254,13 @@ func assignSeenAttrs(ctx *VueContext, node *html.Node) {
 func (v *Vue) RenderFragment(w io.Writer, filename string, data any) error {
 	frontMatter, templateBytes, err := v.loader.loadFragment(filename)
 	if err != nil {
+		v.dropCached(filename)
 		return err
 	}
 
 	dom, err := parser.ParseTemplateBytes(templateBytes)
 	if err != nil {
+		v.dropCached(filename)
 		return err
 	}
 
